@@ -151,7 +151,7 @@ func RunCheck(o CheckOpts) int {
 	}
 	results := make([]*OblResult, len(all))
 	var wg sync.WaitGroup
-	sem := make(chan struct{}, 6)
+	sem := make(chan struct{}, 5)
 	for i, ob := range all {
 		wg.Add(1)
 		go func(i int, ob *Obligation) {
@@ -304,6 +304,11 @@ func RunCheck(o CheckOpts) int {
 	os.MkdirAll(filepath.Join(o.Verif, "evidence"), 0o755)
 	data, _ := json.MarshalIndent(ev, "", " ")
 	os.WriteFile(filepath.Join(o.Verif, "evidence", o.Prop+".json"), data, 0o644)
+	for _, r := range results {
+		if r.Kind != "cover" && r.ok && r.Ms > 4000 {
+			fmt.Printf("govc: slow obligation (%d ms, %s): %s\n", r.Ms, r.Backend, r.ID)
+		}
+	}
 	fmt.Printf("govc: property %s: %d functions under contract, %d/%d obligations discharged, %d covers, %.1fs\n", o.Prop, len(funcsUnder), nDis, nObl, nCover, time.Since(start).Seconds())
 	if nObl == 0 && nViol == 0 {
 		fmt.Println("govc: no obligations generated")
@@ -436,7 +441,11 @@ func modelOf(dir string, w *World, r *OblResult) []string {
 	res := runSolver(context.Background(), Solvers[0], file, 10*time.Second)
 	if res.Status != "sat" && res.Status != "unknown" {
 		os.WriteFile(file, []byte("(set-option :produce-models true)\n(set-logic ALL)\n"+q), 0o644)
-		res = runSolver(context.Background(), Solvers[1], file, 10*time.Second)
+		for _, sv := range Solvers {
+			if sv.NeedsLogic {
+				res = runSolver(context.Background(), sv, file, 10*time.Second)
+			}
+		}
 	}
 	var out []string
 	for _, l := range strings.Split(res.Output, "\n")[1:] {
